@@ -8,6 +8,15 @@ import (
 )
 
 func genInject(r *rng, out *bufio.Writer, nprog int, maxK int) {
+	genInjectMode(r, out, nprog, maxK, false)
+}
+
+// genRunIRQ: the same programs; the request is raised by the device callback at the k-th port access, once under Run, once under Step
+func genRunIRQ(r *rng, out *bufio.Writer, nprog int) {
+	genInjectMode(r, out, nprog, 0, true)
+}
+
+func genInjectMode(r *rng, out *bufio.Writer, nprog int, maxK int, irq bool) {
 	for p := 0; p < nprog; p++ {
 		v := r.randomState(fmt.Sprintf("inj-%d-base", p))
 		v.Intr = nil
@@ -78,6 +87,35 @@ func genInject(r *rng, out *bufio.Writer, nprog int, maxK int) {
 		curWorld = nil
 		total := n + 14
 		v.N = total
+		if irq {
+			nports := 0
+			for _, e := range w.log {
+				if e.K == 'i' || e.K == 'o' {
+					nports++
+				}
+			}
+			kinds := []Intr{{Type: 0}, {Type: 1, Data: []uint8{0x12}}}
+			if mode == 0 {
+				kinds = []Intr{{Type: 0}} // mode 0 has known findings; NMI only
+			}
+			for k := 1; k <= nports+1; k++ {
+				for ki, kd := range kinds {
+					bp := v.BP
+					if r.chance(30) {
+						bp = fmt.Sprintf("%04x", []uint16{0x0038, 0x0039, 0x0066, 0x0080, 0x0083}[r.n(5)])
+					}
+					for _, kindName := range []string{"runirq", "stepirq"} {
+						vv := *v
+						vv.Kind = kindName
+						vv.ID = fmt.Sprintf("ri-%d-p%d-%d-%s", p, k, ki, kindName)
+						vv.Inj = []Inject{{At: k, Intr: kd}}
+						vv.BP = bp
+						fmt.Fprintln(out, vv.String())
+					}
+				}
+			}
+			continue
+		}
 		fmt.Fprintln(out, v.String())
 		type kind struct {
 			name string
